@@ -435,6 +435,12 @@ func c18(c *core.Ctx) {
 				}
 				c.Check(other == token.NoPos, key+":primitive-alone-decides", call.Pos(), "on the all-protobuf edge every return is the primitive's result", "on the edge where all operands are protobuf messages the adapter can return something other than the primitive's result (a gate of its own in front of the primitive): pairs the primitive copies — a generated and a dynamic message of one type — are refused")
 			}
+			// the default cloner's own methods reach the protobuf primitive directly: its verdict on a pair of
+			// messages (a type mismatch is an error) must not pass through something that may overrule it
+			if core.RecvName(fn) == "ProtoCloner" && fn.Parent() == nil && (fn.Name() == "Copy" || fn.Name() == "Clone") {
+				nPrim := len(core.CallsIn(fn, func(_ *ssa.Call, ci core.CallInfo) bool { return ci.Static == copyMsg || ci.Static == cloneMsg }))
+				c.Check(nPrim > 0, key+":calls-the-primitive", fn.Pos(), "the method calls the protobuf primitive itself", "the default cloner's "+fn.Name()+" does not call the protobuf primitive itself: whatever stands between them (a chain of fallbacks that treats every error as 'cannot handle') can turn the primitive's refusal of a destination of another message type into a successful copy by other means")
+			}
 			// codec round trip
 			var marshal, unmarshal *ssa.Call
 			core.Instrs(fn, func(in ssa.Instruction) {
